@@ -152,6 +152,8 @@ fn se_elem(sh: Shape, op: El) {
 }
 harness!(se_insert__s8_4a, se_elem, S8_4A, El::Insert);
 harness!(se_insert__u4f, se_elem, U4F, El::Insert);
+harness!(se_insert__s8_4one, se_elem, S8_4ONE, El::Insert);
+harness!(se_insert__s8_8g4, se_elem, S8_8G4, El::Insert);
 // se_replace: HashSet::replace goes through the `Entry` enum, which CBMC cannot digest (timeout); see DESIGN.md
 harness!(se_remove__s8_8g0, se_elem, S8_8G0, El::Remove);
 harness!(se_remove__s8m0_4a, se_elem, S8M0_4A, El::Remove);
